@@ -23,7 +23,9 @@ Unconsumed(g, k) ==
    LET keep == SelectSeq([i \in 1..Len(g.nodes) |-> i], LAMBDA i : i # k) IN
    [g EXCEPT !.nodes = [j \in 1..Len(keep) |-> g.nodes[keep[j]]], !.outputs = [j \in 1..Len(keep) |-> g.outputs[keep[j]]]]
 InitsSeq(g) == LET names == SeqOfSet(DOMAIN g.inits) IN [k \in 1..Len(names) |-> [name |-> names[k], t |-> g.inits[names[k]]]]
-ModelJ(g) == [nodes |-> g.nodes, inputs |-> g.inputs, outputs |-> g.outputs, inits |-> InitsSeq(g), opset |-> 13]
+\* (output annotations - `outinfo` - are documentation: Run enforces the declared INPUT signature only)
+ModelJ(g) == [nodes |-> g.nodes, inputs |-> g.inputs, outputs |-> g.outputs, inits |-> InitsSeq(g), opset |-> 13] @@
+             (IF "outinfo" \in DOMAIN g THEN [outinfo |-> g.outinfo] ELSE <<>>)
 
 \* a supplied shape for declared dims: per axis d-1, d, d+1 or 7 (for dynamic axes: 1, 4, 7), or another rank
 ConformShape(d) == [i \in 1..Len(d) |-> IF d[i].kind = "fixed" THEN d[i].size ELSE 4]
@@ -68,6 +70,10 @@ One(d) ==
    LET g == GraphOf(<<d>>, {}) IN
    /\ \A sh \in Variants(d) : P(CaseOf(g, Supply({"x1"}, [nm \in {"x1"} |-> sh]), <<"one_input", "rank" \o ToString(Len(d))>>))
    /\ P(CaseOf(g, <<>>, <<"one_input", "missing">>))
+   \* graph outputs annotated with a shape the graph does not compute (a fixed extent, another rank, a symbolic one): still accepted
+   /\ \A od \in {<<DFix(9)>>, <<DFix(1), DFix(1)>>, <<DSym>>, <<>>} : \A sh \in {ConformShape(d), [ConformShape(d) EXCEPT ![1] = IF d[1].kind = "fixed" THEN d[1].size ELSE 7]} :
+         P(CaseOf(g @@ [outinfo |-> [i \in 1..Len(g.outputs) |-> [name |-> g.outputs[i], dt |-> "i64", dims |-> od]]],
+                  Supply({"x1"}, [nm \in {"x1"} |-> sh]), <<"one_input", "output_annotated">>))
    /\ \A sh2 \in {s2 \in Variants(d) : Size(s2) = Size(ConformShape(d)) /\ s2 # ConformShape(d)} \cup {<<Size(ConformShape(d))>>, <<1>> \o ConformShape(d)} :
          P(CaseReshapedBetweenCalls(g, "x1", ConformShape(d), sh2, <<"one_input">>))
    /\ P(CaseOf(g, [nm \in {"x1"} |-> Nil], <<"one_input", "nil_tensor">>))
